@@ -76,6 +76,11 @@ CHECKS = {
          "All trees with up to 4 (thorough 5) entries over small name/size alphabets (incl. dot files, empty folders, hidden folders with visible children): download with every action vector over {send, resume@0, resume@1, resume@size, skip}; upload into three target states; upload-then-download; folder upload reset at every client byte and retried. Announced count = headers; headers = visible entries depth-first once each; size prefix and bytes per action; resulting tree = streamed tree; nothing partial under a final name.",
          "For trees with visible entries below a hidden folder only count = headers is checked; no symlinks.",
          "DESIGN.md §5 C10"),
+ "C07": ("exploration",
+         "bounded-exhaustive enumeration of hostile path/name/login components at every position of every file-touching and account request, in a sandbox with canary siblings, on the real control and transfer paths",
+         "~25,000 requests (thorough adds triples): every placement of up to two components from a 23-element hostile alphabet into path items, names, new names, new paths, folder-upload item paths on the transfer stream and account logins (create, batched create, rename twice, set, delete, get), plus raw path fields with disagreeing prefixes; the snapshot of everything outside the file root and outside the accounts directory must be bit-identical afterwards, account files must be direct children, and no reply or transfer stream may contain canary content or list outside entries.",
+         "The root itself counts as inside; its fork side-file names next to it count as outside.",
+         "DESIGN.md §5 C07"),
 }
 NOT_YET = "check not built yet in this session (see DESIGN.md §11 build order)"
 
